@@ -1271,7 +1271,7 @@ func (f *fragment) minRow(filter *Row) (uint64, uint64) {
 		}
 		// iterate from min row ID and return the first that intersects with filter.
 		// (f.maxRowID is only raised by setBit; imports and Store do not maintain it.)
-		maxRowID := f.storage.Max() / ShardWidth
+		maxRowID := f.maxStorageRowID()
 		for i := minRowID; i <= maxRowID; i++ {
 			row := f.row(i).Intersect(filter)
 			count := row.Count()
@@ -1291,7 +1291,7 @@ func (f *fragment) maxRow(filter *Row) (uint64, uint64) {
 	if hasRowID {
 		// f.maxRowID is a high-water mark of setBit only: it is not lowered when rows are
 		// cleared and not raised by imports or Store, so ask the storage.
-		maxRowID := f.storage.Max() / ShardWidth
+		maxRowID := f.maxStorageRowID()
 		if filter == nil {
 			return maxRowID, 1
 		}
@@ -2665,8 +2665,17 @@ func (f *fragment) readCacheFromArchive(r io.Reader) error {
 }
 
 func (f *fragment) minRowID() (uint64, bool) {
+	f.mu.RLock()
+	defer f.mu.RUnlock()
 	min, ok := f.storage.Min()
 	return min / ShardWidth, ok
+}
+
+// maxStorageRowID returns the highest row with a bit set in storage.
+func (f *fragment) maxStorageRowID() uint64 {
+	f.mu.RLock()
+	defer f.mu.RUnlock()
+	return f.storage.Max() / ShardWidth
 }
 
 // rowFilter is a function signature for controlling iteration over containers
